@@ -32,15 +32,15 @@ def main():
             op, f = R.rng.choice(allops)
             h.append({"op": op, "fault": f, "checker": R.rng.choice(["typeguard", "beartype"]), "ctx": R.rng.random() < .3})
         hists.append(h)
-    nw = 8
-    chunks = [hists[i::nw] for i in range(nw)]
+    # at most 250 histories per worker process: every exception that escapes a pytree flatten callback leaks one level of
+    # jaxlib's recursion counter (after ~1000 of them EVERY flatten in the process raises RecursionError -- jaxlib's, not
+    # jaxtyping's), so a worker must not live long
+    per = 250
+    chunks = [hists[i:i + per] for i in range(0, len(hists), per)]
     from concurrent.futures import ThreadPoolExecutor
-    with ThreadPoolExecutor(nw) as ex:
+    with ThreadPoolExecutor(8) as ex:
         outs = list(ex.map(lambda kc: vf.impl("impl_hist.py", {"histories": kc[1]}, timeout=3000, bg=(kc[0] % 3 == 1)), list(enumerate(chunks))))
-    res = [None] * len(hists)
-    for w, o in enumerate(outs):
-        for j, r in enumerate(o):
-            res[w + j * nw] = r
+    res = [r for o in outs for r in o]
     nontriv, samples = set(), []
     for i, (h, r) in enumerate(zip(hists, res)):
         for o, oc in zip(h, r["ops"]):
